@@ -38,6 +38,12 @@ def counting_calc_holo(*a, **k):
     return _orig_calc_holo(*a, **k)
 
 
+class AlwaysSatisfied:
+    """a user-defined constraint (anything with a check method)"""
+    def check(self, scatterer):
+        return True
+
+
 def build(inp, rng):
     """-> model, pars(dict by name), data, expectations"""
     uniform = inp["uniform"]
@@ -61,7 +67,8 @@ def build(inp, rng):
             members.append(Sphere(n=1.59, r=0.5, center=(1.5, 4.5, 5.0)))
         scat = Spheres(members, warn=False)
         vx = 3.5 if inp["cons"] == "ok" else 2.1
-        constraints = [LimitOverlaps(fraction=0.1)]
+        # a second, user-written constraint that is always satisfied, listed last: the first one still decides
+        constraints = [LimitOverlaps(fraction=0.1), AlwaysSatisfied()]
         theory = Mie()
     else:
         pr = prior.Uniform(0.3, 0.9) if inp["scat"] else prior.Uniform(-1.0, 1.0)
@@ -84,8 +91,12 @@ def build(inp, rng):
         alpha = None
     else:
         a = 0.8 if inp["kind"] == "alpha_fixed" else prior.Uniform(0.5, 1.0)
-        model = AlphaModel(scat, alpha=a, **kw)
         alpha = 0.8 if inp["kind"] == "alpha_fixed" else 0.7
+        if inp.get("edge"):
+            # the scaling exactly 0, the lower end of the customary Uniform(0, 1): inside the support; the model image is 1
+            a = 0.0 if inp["kind"] == "alpha_fixed" else prior.Uniform(0.0, 1.0)
+            alpha = 0.0
+        model = AlphaModel(scat, alpha=a, **kw)
     # parameter values by name
     for name, p in model.parameters.items():
         if p is pn or (p == pn and "n" in name):
@@ -98,7 +109,7 @@ def build(inp, rng):
             else:
                 vals[name] = 0.5 if inp["scat"] else -0.5
         elif "alpha" in name:
-            vals[name] = 0.7
+            vals[name] = 0.0 if inp.get("edge") else 0.7
         elif "noise" in name:
             vals[name] = 0.05
         else:
